@@ -69,7 +69,7 @@ def gen_case(seed, n):
             rules.append([r.choice(["allow", "allow", "allow", "deny"]), lits])
         rules.append([r.choice(["allow", "allow", "deny"]), [[False, "all"]]])
     c["rules"] = rules
-    # ---- cachemgr_passwd: explicit disjoint action lists, optionally a final 'all' line
+    # ---- cachemgr_passwd: explicit action lists, optionally an 'all' line (reordered / overlapping below)
     names = list(ACTIONS)
     r.shuffle(names)
     lines = []
@@ -91,6 +91,18 @@ def gen_case(seed, n):
             lines.append([r.choice(PASSWORDS + PASSWORDS + ["disable", "none"]), take])
         if r.random() < 0.3:
             lines.append([r.choice(PASSWORDS + ["disable", "none"]), ["all"]])
+    # ---- first match wins: 'all' lines anywhere (also BEFORE lines that name actions explicitly) and actions named twice
+    r1 = random.Random(f"C61:order:{seed}:{n}")
+    if lines and r1.random() < 0.5:
+        if lines[-1][1] == ["all"]:
+            if r1.random() < 0.7:
+                lines.insert(r1.randrange(len(lines)), lines.pop())
+        elif r1.random() < 0.5:
+            lines.insert(r1.randrange(len(lines)), [r1.choice(PASSWORDS + ["disable", "none"]), ["all"]])
+        named = [i for i, l in enumerate(lines) if l[1] != ["all"]]
+        if len(named) >= 2 and r1.random() < 0.5:
+            i, j = sorted(r1.sample(named, 2))
+            lines[j][1] = lines[j][1] + [r1.choice(lines[i][1])]
     c["passwd_lines"] = lines
     # ---- requests
     reqs = []
